@@ -146,16 +146,28 @@ def run(ck):
         ck.floor('R12.1s', 0, 1, 'fn Layout::serialize_to_xml')
     else:
         ck.analysed(ls['path'])
+
+        def attr_fields(node):
+            """fields of LayoutAttributes that node mentions, directly or through a local bound to one (`let w = &self.attributes.F;`)"""
+            out = []
+            for x in walk(node):
+                if x.get('k') == 'Field' and x.get('adt', '').endswith('LayoutAttributes'):
+                    out.append(x.get('f'))
+                elif x.get('k') == 'Path' and x.get('res') == 'local':
+                    b_ = H.binding_sites(ls).get(x.get('hid')) or {}
+                    if b_.get('kind') == 'let' and b_.get('pat', {}).get('k') == 'Bind' and b_['node'].get('init') is not None:
+                        out += [y.get('f') for y in walk(b_['node']['init']) if y.get('k') == 'Field' and y.get('adt', '').endswith('LayoutAttributes')]
+            return out
         for n in walk(ls['body']):
             if n.get('k') != 'If':
                 continue
-            gate = [x.get('f') for x in walk(n['c']) if x.get('k') == 'Field' and x.get('adt', '').endswith('LayoutAttributes')]
+            gate = attr_fields(n['c'])
             tups = [t for t in walk(n['then']) if t.get('k') == 'Tup' and len(t['es']) == 2 and H.lit_value(t['es'][0]) is not None]
             if not gate or not tups:
                 continue
             n_attr += 1
             attr = H.lit_value(tups[0]['es'][0])
-            used = [x.get('f') for x in walk(tups[0]['es'][1]) if x.get('k') == 'Field' and x.get('adt', '').endswith('LayoutAttributes')]
+            used = attr_fields(tups[0]['es'][1])
             if not used and n['c'].get('k') == 'LetCond':
                 # `if let Some(s) = format(&self.attributes.F, d) { push((name, s)) }`: the value is what the condition bound
                 bound = {b['hid'] for b in H.pat_bindings(n['c']['pat'])}
@@ -571,32 +583,46 @@ class _LB:
         return None
 
     def guards(self, fn, site, hid):
-        """the greatest lower bound the conditions around site give the local hid"""
+        """the greatest lower bound the conditions around site give the local hid (comparisons with constants, through !, && and ||)"""
         lb = None
         for a in H.ancestors(fn, site):
-            if a.get('k') != 'If' or a['c'].get('k') != 'Binary':
+            if a.get('k') != 'If' or a['c'].get('k') not in ('Binary', 'Unary'):
                 continue
-            c = a['c']
             in_then = any(x is site for x in walk(a['then']))
             in_else = 'els' in a and any(x is site for x in walk(a['els']))
-            l, r = H.strip_refs(c['l']), H.strip_refs(c['r'])
-            op = c['op']
-            if r.get('k') == 'Path' and r.get('hid') == hid and l.get('hid') != hid:
-                l, r = r, l
-                op = {'Lt': 'Gt', 'Le': 'Ge', 'Gt': 'Lt', 'Ge': 'Le'}.get(op, op)
-            if not (l.get('k') == 'Path' and l.get('hid') == hid):
+            if not (in_then or in_else):
                 continue
-            k = self.const(r)
-            if k is None:
-                continue
-            b = None
-            if in_then:
-                b = {'Gt': k + 1, 'Ge': k, 'Eq': k}.get(op)
-            elif in_else:
-                b = {'Le': k + 1, 'Lt': k}.get(op)
-            if b is not None and (lb is None or b > lb):
-                lb = b
+            for b in self.bounds_from(a['c'], in_then, hid):
+                if lb is None or b > lb:
+                    lb = b
         return lb
+
+    def bounds_from(self, c, holds, hid):
+        """lower bounds on hid that follow from `c` being true (holds) or false"""
+        c = H.strip_refs(c)
+        while c.get('k') in ('Paren', 'DropTemps'):
+            c = H.strip_refs(c['e'])
+        if c.get('k') == 'Unary' and c.get('op') == 'Not':
+            return self.bounds_from(c['e'], not holds, hid)
+        if c.get('k') != 'Binary':
+            return []
+        op = c['op']
+        if op in ('And', 'Or'):
+            # a && b true: both true; a || b false: both false; the other two cases give nothing for certain
+            if (op == 'And') == holds:
+                return self.bounds_from(c['l'], holds, hid) + self.bounds_from(c['r'], holds, hid)
+            return []
+        l, r = H.strip_refs(c['l']), H.strip_refs(c['r'])
+        if r.get('k') == 'Path' and r.get('hid') == hid and l.get('hid') != hid:
+            l, r = r, l
+            op = {'Lt': 'Gt', 'Le': 'Ge', 'Gt': 'Lt', 'Ge': 'Le'}.get(op, op)
+        if not (l.get('k') == 'Path' and l.get('hid') == hid):
+            return []
+        k = self.const(r)
+        if k is None:
+            return []
+        b = ({'Gt': k + 1, 'Ge': k, 'Eq': k} if holds else {'Le': k + 1, 'Lt': k}).get(op)
+        return [b] if b is not None else []
 
     def lb(self, fn, e, depth=0):
         if depth > 20:
